@@ -276,6 +276,15 @@ def worker(case):
             p = None
             refinv = str(e)
         script = "fopen 1 f.zck r input\ncreate 1\ninit_read 1 1\nis_error 1\nmeta 1\n"
+        if int(cid, 16) % 4 == 1:
+            # writer-side options set on the context before the file is opened for reading (accepted or refused): what is reported afterwards
+            # is still what the file says
+            if int(cid, 16) % 8 == 1:
+                script = script.replace("init_read 1 1\n", "init_adv_read 1 1\niopt 1 4 1\nclear_error 1\niopt 1 1 0\nclear_error 1\nread_lead 1\nread_header 1\n")
+            else:
+                # ... or after it was opened, before the values are asked for
+                script = script.replace("meta 1\n", "iopt 1 4 1\nclear_error 1\niopt 1 1 0\nclear_error 1\nmeta 1\n")
+            stats["opens_after_writer_side_options"] = 1
         # lookups by number (zck_get_chunk) after the dump: last, first, descending, a shuffled order, repeats, one past the end
         look = []
         if p is not None and 1 <= len(p.chunks) <= 400:
@@ -293,7 +302,7 @@ def worker(case):
         rd = core.run_zh(case["zh"], cdir, script, {"f.zck": fdata_}, name="meta")
         if rd.timed_out and not rd.cpu_exceeded:
             return core.verdict(cid, "inconclusive", detail="watchdog", case=case)
-        ir = rd.first(op="init_read")
+        ir = rd.first(op="init_read") or rd.first(op="read_header")
         opened = bool(ir and ir["rc"] == 1)
         viol = None
         cs = core.crash_signatures(rd)
